@@ -91,35 +91,44 @@ Definition dur_op (o : op) : Prop :=
 Definition low_op (o : op) : Prop :=
   match o with OSet _ _ (Some d) => d = 0 | OSynth d => d = 0 | _ => True end.
 
+(* the functions that are not persisted only call functions that are not persisted: what a
+   snapshot flattens away are memos that were computed after the last restore *)
+Definition np_closed (prog : qkey -> body) (pfam : N -> bool) : Prop :=
+  forall q q', pfam (fst q) = false -> calls (prog q) q' -> pfam (fst q') = false.
+
 (* the persisted functions only call persisted functions: no dependency is flattened away *)
 Definition persisted_closed (prog : qkey -> body) (pfam : N -> bool) : Prop :=
   forall q q', pfam (fst q) = true -> calls (prog q) q' -> pfam (fst q') = true.
 
-(* The full statement.  PROVED (Persist/PTop.v, Props/C26.v), against the fixed flattening (a
-   dependency without memo is kept as an edge; before that fix the statement was FALSE):
+(* The full statement.  PROVED (Persist/PTop.v, LTop.v, Props/C26.v), against the fixed flattening
+   (a dependency without memo is kept as an edge; before that fix the statement was FALSE):
    - for histories without ORestore (C26_results_no_restore), every program and pfam;
-   - with the extra hypothesis [persisted_closed prog pfam] (C26_results_partial);
-   - for every program and pfam when all durabilities are LOW (C26_results_low): the
-     dependencies that a snapshot flattens away, to any depth, stay observers (PInv.good).
-   In all three settings the only base panic that can unwind a request is an injected fault
+   - with the extra hypothesis [persisted_closed prog pfam] (C26_results_partial): nothing is
+     flattened away; all durabilities;
+   - with the extra hypothesis [np_closed prog pfam] (C26_results_np): what is flattened away, to
+     any depth, are memos of functions that are never serialised, which record their direct
+     reads; all durabilities — memos validated by the durability short-cut over older
+     dependencies (PInv.mo_sync / cconst, lifted to the caller's revision at restore time:
+     PTop.exp_good), the durability owed to a flattened dependency that is executed again
+     (PInvSem.floor_dur: old stamp by provenance, or marked verified, or computed now:
+     PInv.ext_new / fresh_lb);
+   - for every program and pfam when all durabilities are LOW (C26_results_low; development of
+     stage 4, Persist/LInv*.v, LTop.v).
+   In all these settings the only base panic that can unwind a request is an injected fault
    ([results_ok_strict]; C26_results_strict): stamps never decrease, also across restores.
-   NOT proved: restore of a memo with flattened dependencies when some durability is above LOW.
-   Two things are then needed that the LOW case avoids:
-   (a) a memo of durability >= MEDIUM may have been validated by the durability short-cut while
-       its dependencies' memos stayed at older revisions: the flattened edges are then the
-       dependency's reads at a revision BEFORE the memo's verified_at.  Route: replace PInv.mo_sync
-       by "dependency verified at least as late, OR the window between the two revisions is
-       stable at the memo's level (DurSem.wstable)", and lift such a dependency to its caller's
-       revision at restore time (DurSem.durge_stable gives the same reads);
-   (b) when a flattened dependency is executed again after the restore, in a revision later
-       than the restored memo's verified_at, and the memo is then validated through its flattened
-       edges, it owes the dependency's new memo "m_dur memo <= m_dur dependency".  With the stamp
-       provenance that is now part of the invariant (PInv.mo_stamp, inv_ghost, ext_mono) this
-       follows, by induction from the leaves, for every memo that existed when the walk started;
-       what is still missing is the same bound for a memo of a flattened dependency that is
-       stored DURING the walk itself (below a leaf that is re-executed and backdated, after an
-       earlier leaf was validated without a value and then re-executed with a larger stamp): a
-       "durability floor within a revision" for the memos below a memo that is being verified. *)
+   NOT proved: a program in which a function that is NOT persisted calls a persisted one, with
+   some durability above LOW.  The inner recursion of collect_minimum_serialized_edges then
+   expands memos of PERSISTED functions (it has no persistability test), and such a memo may be a
+   restored one whose own edges are leaves already, with its own cover (PInv.good).  What the
+   general invariant (Persist/PInv*.v: dlevel_ok holds for it, for all durabilities) still lacks
+   is the restore step for that case: the inherited cover has to be re-rooted when the restored
+   inner memo is older than its caller (short-cut), which needs, for every function read of a
+   cover node — not only for the leaves that are never serialised (the [pf e = false] premise of
+   PInv.good_exp) — "the read's memo is at least as recent as the node, or the read is constant
+   in between"; that clause is not maintainable when a walk re-roots the nodes at the current
+   revision while a flattened dependency keeps an older memo of its own (only the covered region
+   is known to be constant between the two revisions, not the dependency's whole closure).  A
+   constancy notion relative to the cover (instead of PInv.cconst) is the missing piece. *)
 Definition C26_results_full_statement : Prop :=
   forall (prog : qkey -> body) (noeq : qkey -> bool) (pfam : N -> bool) (fams : list N)
          (lru0 : N -> lru_state) (rank : qkey -> nat) (NF : nat),
